@@ -302,6 +302,13 @@ class NeedChoice(Exception):
         self.mark = mark
 
 
+class NeedVariant(Exception):
+    """The value of an unexpanded marker is needed: which of the result shapes its contract allows?"""
+
+    def __init__(self, mark):
+        self.mark = mark
+
+
 class StubMismatch(Exception):
     pass
 
@@ -316,6 +323,7 @@ def clone_tree(node, memo):
     elif isinstance(node, Mark):
         n = Mark(node.nt, node.mid, node.depth, node.variant)
         n.first = node.first
+        n.variant = node.variant
     else:
         n = Group(node.nt, node.prod, [clone_tree(k, memo) for k in node.kids], node.shape, node.depth)
     memo[id(node)] = n
@@ -377,10 +385,10 @@ class GX:
             __slots__ = ("mark",)
 
             def __init__(self, mark, value, column):
-                self.mark = mark
-                self.value = value
-                self.lineno = 1
-                self.column = column
+                object.__setattr__(self, "mark", mark)
+                object.__setattr__(self, "value", value)
+                object.__setattr__(self, "lineno", 1)
+                object.__setattr__(self, "column", column)
 
             @property
             def type(self):
@@ -587,6 +595,12 @@ class GX:
                 return None
             if node.value is None:
                 nt = self.g.nts[node.nt]
+                vs = getattr(nt, "value_variants", None)
+                if vs and node.variant is None:
+                    raise NeedVariant(node)
+                if vs and node.variant:
+                    node.value = vs[node.variant](self, node)
+                    return node.value
                 fac = nt.opaque or (lambda gx, m: gx.Opaque(f"{m.nt}#{m.mid}", gx.Coord("f.c", 900 + m.mid, 1)))
                 node.value = fac(self, node)
             return node.value
@@ -829,9 +843,14 @@ class Run:
         self.calls = 0
         self.snap: Dict[int, Any] = {}
         self.applied: List[Any] = []
+        self.undone: List[Any] = []
 
     def on_reset(self, m, cur):
         self.resets.append((m, cur))
+        # work thrown away by this reset (C16): constructs parsed by callees / tokens taken by the method itself after the mark
+        undone_stubs = [(nm, n.nt) for (nm, n, s0, e0) in self.stub_calls if s0 >= m and e0 <= cur and e0 > s0]
+        undone_own = len([i for i in self.consumed_by_method if m <= i < cur])
+        self.undone.append((m, cur, undone_stubs, undone_own))
         for n in self.pre:
             if n.start >= m and isinstance(n, Group):
                 n.consumed = False
@@ -884,6 +903,7 @@ class Run:
             if id(n) not in self.snap:
                 self.snap[id(n)] = gx.snapshot(v) if not callable(v) else v
             self.stub_calls.append((name, n, n.start, n.end))
+            self.events.append(("stub", name))
             self.parser._tokens._index = n.end
             if gx.g.nts[n.nt].args.get("apply"):
                 r = gx.resolve_coords(v(*a, **kw), n)
@@ -924,11 +944,22 @@ class Run:
             errs.append((msg, coord))
             raise gx.ParseError(f"{coord}: {msg}")
         p._parse_error = parse_error
+        # registration sites (C04): log every name entered into the scope stack, then do the real thing
+        self.registrations = []
+        self.events = []
+        for nm, kind in (("_add_identifier", False), ("_add_typedef_name", True)):
+            real = getattr(gx.CParser, nm)
+
+            def reg(name, coord, real=real, kind=kind, p=p):
+                self.registrations.append((name, kind))
+                self.events.append(("register", name))
+                return real(p, name, coord)
+            setattr(p, nm, reg)
         fn = gx.CParser.__dict__[self.method]
         gx.stats["runs"] += 1
         try:
             res = fn(p, *self.args, **self.kwargs)
-        except (NeedExpand, NeedChoice):
+        except (NeedExpand, NeedChoice, NeedVariant):
             raise
         except gx.ParseError as e:
             return Outcome("parse-error", str(e), None, self)
@@ -1015,6 +1046,17 @@ def explore(gx: GX, method: str, nt: str, prod: Prod, flat, shape, follow: List[
         run = Run(gx, method, tree, follow, args, kwargs, real)
         try:
             oc = run.execute()
+        except NeedVariant as e:
+            m = e.mark
+            nvar = len(gx.g.nts[m.nt].value_variants)
+            # one non-default result shape per run (each slot is varied in turn)
+            already = any(isinstance(x, Mark) and x.variant for x in _walk(tree))
+            for k in range(nvar if not already else 1):
+                memo = {}
+                t2 = clone_tree(tree, memo)
+                memo[id(m)].variant = k
+                work.append(t2)
+            continue
         except NeedChoice as e:
             m = e.mark
             cands = gx.class_reps(gx.g.first[m.nt])
